@@ -123,6 +123,13 @@ func (c *Ctx) Prove(s *State, name string, goal *Term, onSat func(val func(*Term
 			v, _ := sv.Value(t)
 			return v
 		}
+		if os.Getenv("VF_DEBUG_PC") != "" {
+			for i, t := range s.pc {
+				if x, ok := sv.Value(t); ok && x == 0 {
+					fmt.Fprintln(os.Stderr, "PC conjunct", i, "is false under the model:", dumpTerm(t, 5))
+				}
+			}
+		}
 		var v *Violation
 		if onSat != nil {
 			v = onSat(val)
